@@ -57,6 +57,10 @@ def get_line_range_for_node(
 
     """
     first_lineno = node.lineno
+    node_end_lineno = getattr(node, "end_lineno", None)
+    if node_end_lineno is not None:
+        # the parser knows where the node ends
+        return list(range(first_lineno, node_end_lineno + 1))
     # iterate through all childnodes and find the max lineno
     last_lineno = first_lineno + 1
     for childnode in ast.walk(node):
